@@ -115,8 +115,11 @@ def toPairs (f : Fields) : Except FErr Stanza :=
       [(Key.baseRevisionId, f.baseRevisionId)])
 
 /-- the field part of `MergeDirective2._from_lines` (after the payload has been split off);
-`hasBundle` = a bundle section was found -/
-def fromPairs (st : Stanza) (hasBundle : Bool) : Except FErr Fields :=
+`hasBundle` = a bundle section was found.  `tolerant = false` is the code as found: the
+constructor is called without `testament_sha1` when the tag is absent, which is a TypeError;
+`tolerant = true` is the proposed repair (`testament_sha1=None` then).  The harness probes
+which one the tree implements. -/
+def fromPairsV (tolerant : Bool) (st : Stanza) (hasBundle : Bool) : Except FErr Fields :=
   match lookup st .timestamp with
   | none => .error .missingKey
   | some ts =>
@@ -125,12 +128,16 @@ def fromPairs (st : Stanza) (hasBundle : Bool) : Except FErr Fields :=
     | .ok (time, tz) =>
       match lookup st .revisionId, lookup st .baseRevisionId with
       | some rid, some bid =>
-        match lookup st .testamentSha1, lookup st .targetBranch with
-        | some sha, some tb =>
-          if (lookup st .sourceBranch).isNone ∧ !hasBundle then .error .noMergeSource
-          else .ok ⟨rid, some sha, time, tz, tb, lookup st .sourceBranch, lookup st .message, bid⟩
-        | _, _ => .error .typeError
+        match lookup st .targetBranch with
+        | none => .error .typeError
+        | some tb =>
+          if (lookup st .testamentSha1).isNone ∧ !tolerant then .error .typeError
+          else if (lookup st .sourceBranch).isNone ∧ !hasBundle then .error .noMergeSource
+          else .ok ⟨rid, lookup st .testamentSha1, time, tz, tb, lookup st .sourceBranch, lookup st .message, bid⟩
       | _, _ => .error .missingKey
+
+/-- the code as found -/
+def fromPairs (st : Stanza) (hasBundle : Bool) : Except FErr Fields := fromPairsV false st hasBundle
 
 /-- `to_lines()` from the fields -/
 def toLinesF (rio : Codec Stanza) (d : Directive Fields) : Except FErr (List Line) :=
@@ -144,12 +151,16 @@ inductive FromErr where
   deriving DecidableEq, Repr
 
 /-- `MergeDirective.from_lines` down to the fields -/
-def fromLinesF (rio : Codec Stanza) (lines : List Line) : Except FromErr (Directive Fields) :=
+def fromLinesFV (tolerant : Bool) (rio : Codec Stanza) (lines : List Line) : Except FromErr (Directive Fields) :=
   match fromLines rio lines with
   | .error e => .error (.directive e)
   | .ok d =>
-    match fromPairs d.fields d.bundle.isSome with
+    match fromPairsV tolerant d.fields d.bundle.isSome with
     | .error e => .error (.fields e)
     | .ok f => .ok ⟨f, d.patch, d.bundle⟩
+
+/-- the code as found -/
+def fromLinesF (rio : Codec Stanza) (lines : List Line) : Except FromErr (Directive Fields) :=
+  fromLinesFV false rio lines
 
 end BreezyVerif.C40
